@@ -4,7 +4,7 @@ from harness.oracles import all as ALL
 
 ID = 'C12'
 UNITS = ['weighted_accuracy', 'chord_segmentation', 'chord_evaluate', 'merge_intervals', 'interpolate_intervals', 'hier_measures', 'seg_cluster_q']
-TRANSLATORS = ['chordre', 'tables', 'vecfuncs', 'wrapfuncs', 'intervalfuncs']
+TRANSLATORS = ['chordre', 'tables', 'vecfuncs', 'wrapfuncs', 'intervalfuncs', 'corefuncs', 'hierfuncs']
 NOT_COVERED = ('float summation order (the property grants 1e-9); the entropic segment scores are covered through the sampling invariance '
                '(identical frame labels) rather than per score; the T-measure is boundary-based and outside the property')
 ASSUMPTIONS = ['NumPy primitives as modelled in Intervals / ChordPipeline']
